@@ -44,3 +44,44 @@ Definition header_field_names (mnr : Z) : list string :=
 
 Definition recs_ok (ps : Z) (recs : list (list Z)) : bool :=
   forallb (fun r => (len r =? ps) && bytes_ok r) recs.
+
+(* the header that ends up in the one-shot file (mirror of file_of, returning the final field list) *)
+Definition final_hdr (ap : Z -> Z -> Z -> Z) (h : assoc) (vl : list vlr) (fmt : Z) (recs : list (list Z)) (evl : list vlr) : result assoc :=
+  do hb0 <- enc_header (with_stats h stats0) vl false;
+  let off := len (snd hb0) in
+  let pts := concat recs in
+  do eb <- enc_vlrs true evl;
+  let st := stats_of ap fmt h recs in
+  let st := match evl with
+            | [] => st
+            | _ => mkS (s_count st) (s_max st) (s_min st) (s_ret st) (off + len pts) (len evl)
+            end in
+  do hb <- enc_header (with_stats (fst hb0) st) vl true;
+  Ok (fst hb).
+
+(* everything the round-trip theorems ask of the data handed to the writer *)
+Definition wf_las (ap : Z -> Z -> Z -> Z) (h : assoc) (vl : list vlr) (fmt : Z) (recs : list (list Z)) (evl : list vlr) : Prop :=
+  exists h', final_hdr ap h vl fmt recs evl = Ok h'
+    /\ wf_header h' vl = true
+    /\ forallb (wf_vlr true) evl = true
+    /\ recs_ok (aint h' "point_size") recs = true
+    /\ 0 < aint h' "point_size"
+    /\ (evl = [] \/ aint h "version.minor" >= 4)
+    /\ len evl <= MAX_VLRS
+    /\ compressed_id_to_uncompressed (aint h "point_format_id") = fmt.
+
+(* a write trace is a list of positioned writes; an interrupted run applies a prefix of it, the last write torn *)
+Definition apply_write (f : list Z) (w : Z * list Z) : list Z := write_at f (fst w) (snd w).
+Definition crash_image (trace : list (Z * list Z)) (k j : nat) : list Z :=
+  let done := fold_left apply_write (firstn k trace) [] in
+  match nth_error trace k with
+  | Some (pos, bs) => write_at done pos (firstn j bs)
+  | None => done
+  end.
+
+Definition is_prefix {A} (p l : list A) : Prop := exists m, p = firstn m l.
+Definition reads_prefix_or_fails (img : list Z) (recs : list (list Z)) : Prop :=
+  match read_file img with
+  | Err _ => True
+  | Ok lf => is_prefix (lf_points lf) recs
+  end.
